@@ -276,8 +276,15 @@ def gen_program(rng, missing_names=None, max_stmts=8, allow_nested_imports=True)
     env = {}
     lines = []
     funcs = []       # names of defined functions to call at the end
-    if rng.random() < 0.3:
-        lines.append(rng.choice(['"""Doc."""', '"""Doc.\n\n  >>> f(1)\n"""', "# header comment"]))
+    r0 = rng.random()
+    if r0 < 0.45:
+        head = rng.choice(["", "", "#!/usr/bin/env python\n", "# licence line\n# second line\n", "# header comment\n\n"])
+        doc = rng.choice(['"""Doc."""', '"""Doc.\n\n  >>> f(1)\n"""', "",
+                          '"""Doc.\n\n    >>> from pa import f\n    >>> f(2)\n"""',
+                          "'''Multi\nline doc\n'''"])
+        pre = (head + doc).rstrip("\n")
+        if pre:
+            lines.append(pre)
     if rng.random() < 0.15:
         lines.append("from __future__ import annotations")
     n = rng.randint(2, max_stmts)
@@ -338,8 +345,24 @@ def gen_program(rng, missing_names=None, max_stmts=8, allow_nested_imports=True)
             if rng.random() < 0.15 and _callable_exprs(uenv, rng):
                 deco = ""  # decorators would change call protocol; use default arg instead
             default = ""
-            if rng.random() < 0.3:
+            r1 = rng.random()
+            if r1 < 0.3:
                 default = "a=%s" % rng.choice(_value_exprs(uenv, rng))
+            elif r1 < 0.45:
+                # a parameter that shadows a module-level name (the body then reads the parameter)
+                shadow = [k for k, v in uenv.items() if v in ("fn", "int", "cls") or v.startswith("mod:")]
+                if shadow:
+                    nm = rng.choice(shadow)
+                    default = "%s=1" % nm
+                    body = ["    return %s" % nm]
+            if rng.random() < 0.15:
+                fns = [k for k, v in uenv.items() if v == "fn"]
+                if fns:
+                    nm = rng.choice(fns)
+                    src = rng.choice(["pa", "pb"]) if nm in ("f",) else None
+                    dt = ('    """\n    >>> %s(1)\n    """' % nm) if not src else (
+                        '    """\n    >>> from %s import %s\n    >>> %s(1)\n    """' % (src, nm, nm))
+                    body.insert(0, dt)
             lines.append("def %s(%s):\n%s" % (fname, default, "\n".join(body)))
             funcs.append(fname)
             env[fname] = "localfn"
